@@ -13,6 +13,7 @@ import (
 	"runtime"
 	"runtime/debug"
 	"sort"
+	"strconv"
 	"strings"
 	"sync"
 	"syscall"
@@ -501,15 +502,17 @@ func runSession(spec *proto.Spec) {
 }
 
 func describe(shell *readline.Shell) {
-	ev := &proto.Event{Ev: "describe", Binds: map[string]map[string]proto.BindDesc{}, VarsDesc: map[string]string{}}
+	ev := &proto.Event{Ev: "describe", Binds: map[string]map[string]proto.BindDesc{}, BindsQ: map[string]map[string]proto.BindDesc{}, VarsDesc: map[string]string{}}
 
 	for km, binds := range shell.Config.Binds {
-		m := map[string]proto.BindDesc{}
+		m, q := map[string]proto.BindDesc{}, map[string]proto.BindDesc{}
 		for seq, b := range binds {
 			m[seq] = proto.BindDesc{Action: b.Action, Macro: b.Macro}
+			q[strconv.QuoteToASCII(seq)] = proto.BindDesc{Action: strconv.QuoteToASCII(b.Action), Macro: b.Macro}
 		}
 
 		ev.Binds[km] = m
+		ev.BindsQ[km] = q
 	}
 
 	for name := range shell.Keymap.Commands() {
